@@ -40,6 +40,12 @@ class Fixture:
         w("mid.json", b'{"k":"' + b"m" * 9000 + b'"}')
         w("big.json", b"".join(b'{"n":%d,"p":"%s"}\n' % (i, b"x" * 90) for i in range(900)))
         w("huge.json", b"".join(b'{"n":%d,"p":"%s"}\n' % (i, b"y" * 180) for i in range(3000)))
+        # more than a buffer of valid output, then a document that does not parse / a second document
+        w("bigbad.json", b'{"k":"' + b"v" * 20000 + b'"}\n]\n')
+        w("bigtwo.json", b'{"k":"' + b"v" * 20000 + b'"}\n{"l":1}\n')
+        # long lines and long strings holding line feeds, placed across the 8 KiB and 16 KiB marks of the output
+        w("longlines.json", b"[" + b",".join(b'"s%d"' % i for i in range(1150)) + b',"' + b"L" * 3000 + b'",' +
+          b",".join(b'{"k%d":"%s"}' % (i, b"w" * 1300) for i in range(40)) + b',"' + b"a" * 7000 + b"\\n" + b"b" * 1500 + b'"]')
         # streams of tiny documents whose first document has 1..6 digits: the 8 KiB buffer then fills up inside every kind
         # of write (a body, a JSON newline, a YAML '---' line) for some member of the family
         for L in range(1, 7):
@@ -130,6 +136,38 @@ def run_xt(binary, argv, cwd, stdin_bytes=None, stdout_mode="pipe", close_after=
         t.join(timeout=5)
         os.close(master)
         out_data = b"".join(chunks).replace(b"\r\n", b"\n")
+    elif stdout_mode == "consume_hold":
+        # the consumer takes close_after bytes and leaves while xt is still waiting for more input: standard input is closed
+        # only after the consumer has gone
+        r, w = os.pipe()
+        p = subprocess.Popen([binary] + argv, cwd=cwd, stdin=subprocess.PIPE, stdout=w, stderr=subprocess.PIPE)
+        os.close(w)
+        got = []
+        try:
+            p.stdin.write(stdin_bytes or b"")
+            p.stdin.flush()
+        except OSError:
+            pass
+        left = close_after
+        while left > 0:
+            b = os.read(r, min(left, 65536))
+            if not b:
+                break
+            got.append(b)
+            left -= len(b)
+        os.close(r)
+        try:
+            p.stdin.close()
+        except OSError:
+            pass
+        try:
+            err = p.stderr.read()
+            p.wait(timeout=timeout)
+        except subprocess.TimeoutExpired:
+            p.kill()
+            p.wait()
+            return ("hang", 0), b"".join(got), b""
+        out_data = b"".join(got)
     else:   # closed / consume
         r, w = os.pipe()
         if stdout_mode == "closed":
@@ -374,6 +412,8 @@ def compare(r, check_stdout=True):
             t = texts.get(k)
             if t == "PANIC":
                 pass
+            elif c.mode == "devfull" and (b"No space left on device" in err or b"error while writing" in err):
+                pass    # more than a buffer of output came before the input's own failure: the device's error is met first
             elif t is not None and t != "" and err[len(head):-1].decode("utf-8", "replace") != t:
                 diffs.append("error text differs from the library's: library %r, binary %r" % (t[:200], err[len(head):-1][:200]))
     return diffs
